@@ -393,7 +393,9 @@ func TestC38(t *testing.T) {
 	ads := c38ADs()
 	blens := c38BodyLens()
 	algs := []signed.SignatureAlgorithm{signed.ECDSAWithSHA256, signed.ECDSAWithSHA384, signed.ECDSAWithSHA512}
-	masks := mc.Pick([]byte{0x01, 0x80}, []byte{0x01, 0x02, 0x04, 0x08, 0x10, 0x20, 0x40, 0x80})
+	// thorough: all 8 single-bit masks with the P-256 key (parsing of the envelope does not depend on the curve; P-384/521
+	// verifications cost 10-40x more), lowest and highest bit with the P-384/P-521 keys.
+	allMasks := mc.Pick([]byte{0x01, 0x80}, []byte{0x01, 0x02, 0x04, 0x08, 0x10, 0x20, 0x40, 0x80})
 
 	var bases []c38Base
 	for k := 0; k < 3; k++ {
@@ -407,6 +409,9 @@ func TestC38(t *testing.T) {
 						if sparseLen && !((h == 0 || h == 2) && (ad == 0 || ad == 2)) {
 							continue
 						}
+						if k > 0 && (sparseLen || ad == 4 || ad == 5) {
+							continue // P-384/P-521: the body lengths of the quick tier (+130), AD lists without the 24-byte ones
+						}
 						bases = append(bases, c38Base{k, a, h, bl, ad})
 					}
 				}
@@ -415,12 +420,20 @@ func TestC38(t *testing.T) {
 	}
 	// Interleave cheap (P-256) and expensive (P-521) bases so that a budget cut does not drop a whole curve.
 	order := make([]int, 0, len(bases))
-	per := len(bases) / 3
-	for i := 0; i < per; i++ {
-		order = append(order, i, per+i, 2*per+i)
+	var byKey [3][]int
+	for i, b := range bases {
+		byKey[b.key] = append(byKey[b.key], i)
+	}
+	for i := 0; len(order) < len(bases); i++ {
+		for k := 0; k < 3; k++ {
+			if i < len(byKey[k]) {
+				order = append(order, byKey[k][i])
+			}
+		}
 	}
 
 	var capped atomic.Bool
+	var basesDone atomic.Int64
 	var twinAccepted, twinTried atomic.Int64
 	var nAccept, nReject atomic.Int64
 	outcomes := make([]atomic.Int64, 16)
@@ -451,6 +464,10 @@ func TestC38(t *testing.T) {
 			return
 		}
 		bc := bases[order[oi]]
+		masks := allMasks
+		if bc.key > 0 {
+			masks = []byte{0x01, 0x80}
+		}
 		key := keys[bc.key]
 		pub := &key.priv.PublicKey
 		ad := ads[bc.ad]
@@ -579,11 +596,15 @@ func TestC38(t *testing.T) {
 						&cryptopb.SignedMessage{HeaderAndBody: hb, Signature: src.Signature}, pub, ad)
 				}
 			}
-			if src == mRef && !mc.Thorough() {
-				break // quick: signature bytes of the real-signed message only
+			sparse := bc.blen != 0 && bc.blen != 1 && bc.blen != 2 && bc.blen != 17 && bc.blen != 32 && bc.blen != 130
+			if src == mRef && (!mc.Thorough() || sparse || bc.hdr > 3 || bc.key > 0) {
+				break // signature bytes of the reference-signed twin: thorough tier, dense part of the grid only
 			}
 			for i := range src.Signature {
-				for _, mask := range masks {
+				for mi, mask := range masks {
+					if sparse && mi > 0 && mi < len(masks)-1 {
+						continue // sparse part of the thorough grid: lowest and highest bit of every signature byte
+					}
 					sg := append([]byte{}, src.Signature...)
 					sg[i] ^= mask
 					expectReject(oSigByte, "signature-byte-accepted", fmt.Sprintf("Signature[%d]^=%#x of %x", i, mask, src.Signature),
@@ -896,7 +917,9 @@ func TestC38(t *testing.T) {
 				"ad_parts": len(ad), "cases_on_this_base": evals})
 		}
 		r.CaseBulk(evals, distinct)
+		basesDone.Add(1)
 	})
+	r.Extra["base_messages_completed"] = basesDone.Load()
 	if capped.Load() {
 		r.Capped("internal budget reached before all base messages were explored")
 	}
@@ -907,7 +930,7 @@ func TestC38(t *testing.T) {
 		}
 	}
 	r.Extra["base_messages"] = len(bases)
-	r.Extra["byte_masks"] = fmt.Sprintf("%x", masks)
+	r.Extra["byte_masks"] = fmt.Sprintf("%x (P-256 key), 0180 (P-384/P-521 keys)", allMasks)
 	r.Extra["mutants_rejected"] = nReject.Load()
 	r.Extra["mutants_accepted"] = nAccept.Load()
 	r.Extra["observation_ecdsa_twin_r_n_minus_s"] = fmt.Sprintf("accepted %d of %d (algebraic malleability of ECDSA, outside the alphabet)",
